@@ -57,6 +57,6 @@ c.requires("start < stop")
 c.loop(1, "spec.rr(stop - start, entropy_f, spec.entropy_pos(entropy_f)) == spec.rr(stop - start, entropy_f, 0)", name="first-accepted")
 c.loop(1, "spec.entropy_pos(entropy_f) >= 0", name="pos")
 c.ensures("start <= result and result < stop", name="in-range", tags="C11 C04 C01")
-c.ensures("result == start + spec.rr(stop - start, entropy_f, 0)", name="rejection-sampling", tags="C11 C03")
-c.ensures("spec.entropy_sizes_all(spec.size_bytes(stop - start))", name="block-size", tags="C11")
+c.ensures("result == start + spec.rr(stop - start, entropy_f, 0)", name="rejection-sampling", tags="C11 C03 C16")
+c.ensures("spec.entropy_sizes_all(spec.size_bytes(stop - start))", name="block-size", tags="C11 C16")
 c.canary("result == start + spec.rr(stop - start, entropy_f, 1)")
